@@ -354,7 +354,9 @@ fn srv_expected_reply(op: &FeOp, s: &Script) -> Option<Vec<u8>> {
         FeOp::SetDeviceStateFd(..) => match s.dev_state {
             DevStateOut::NoFile => spec::p_u64(0x100),
             DevStateOut::WithFile => spec::p_u64(0),
-            DevStateOut::Err => return None,
+            // failure: bits 0-7 carry a non-zero error code and bit 8 says "no descriptor attached"
+            // (the library uses code 1)
+            DevStateOut::Err => spec::p_u64(0x101),
         },
         FeOp::CheckDeviceState => spec::p_u64(0),
         FeOp::GetShmemConfig => {
@@ -423,9 +425,11 @@ fn server_dir(cfg: &Cfg, rng: &mut Rng) {
                     if matches!(op, FeOp::SetProtocolFeatures(_) | FeOp::SetFeatures(_)) {
                         continue; // would renegotiate; covered by C04/C07 histories and by raw_negotiate above
                     }
-                    be.lock().unwrap().script.dev_state = match rng.below(2) {
+                    be.lock().unwrap().script.dev_state = match rng.below(3) {
                         0 => DevStateOut::NoFile,
-                        _ => DevStateOut::WithFile,
+                        1 => DevStateOut::WithFile,
+                        // the one failure that has a wire encoding of its own
+                        _ => DevStateOut::Err,
                     };
                     let script_now = be.lock().unwrap().script.clone();
                     let (body, nfds) = op.wire(true);
